@@ -112,6 +112,10 @@ def main():
     c.rule = "every scenario is one run of the sanitised library; non-trivial = scenarios that ran to completion without a sanitizer report (distinct inputs); families: " + json.dumps(kinds)
     c.trusted = ["AddressSanitizer / UndefinedBehaviorSanitizer (gcc 12) as the monitor", "TLC for Chase.tla"]
     c.assumptions = ["only executed paths of single-rank runs are observed", "leak detection off (the library leaks by design)"]
+    # every documented transition of the life-cycle graph (spec/Workflow.tla; repeated and interleaved prepare/compute/get calls) plus
+    # simulated long histories, executed by the sanitised library
+    import workflow
+    workflow.attach(c, set(), "workflow", variant="asan")
     c.finish()
 
 
